@@ -173,6 +173,19 @@ Theorem C19_fetch_verified :
 Proof. exact fetch_verified. Qed.
 Print Assumptions C19_fetch_verified.
 
+(* ... and only for a block whose recorded hash is the hash of its own data (BLK, REP): the hash field of a CHG block is a PAST
+   hash (what the parity position held before), data matching it is not the block's data *)
+Theorem C19_repair_fetch_verified :
+  forall (hashf : bid -> N -> hval) (st : bstate) (cands : list candidate) (size : N) (mtime nsec : Z) (want : hval) (len : N) (x : bid),
+    repair_fetch hashf st cands size mtime nsec want len = Some x -> st <> SChg /\ hashf x len = want.
+Proof. exact repair_fetch_verified. Qed.
+Print Assumptions C19_repair_fetch_verified.
+Example C19_ex_fetch :
+  repair_fetch ex_hf SBlk [mkCand 10 5%Z 6%Z None 3%N] 10 5%Z 6%Z (ex_hf 3 10) 10 = Some 3%N /\
+  repair_fetch ex_hf SChg [mkCand 10 5%Z 6%Z None 3%N] 10 5%Z 6%Z (ex_hf 3 10) 10 = None /\
+  repair_fetch ex_hf SRep [mkCand 10 5%Z 6%Z None 4%N] 10 5%Z 6%Z (ex_hf 3 10) 10 = None.
+Proof. vm_compute. repeat split; reflexivity. Qed.
+
 (* --- non-vacuity: the instance of Scan/ScanExamples.v (two disks; a synced file `a`, a file with a's name, size and
    time-stamp appears on the other disk) ------------------------------------------------------------------------------- *)
 (* the scan inherits a's hashes as REP and counts a copy *)
